@@ -12,7 +12,8 @@ TECHNIQUE = ("Lean 4 proof: invariant of the six-step machine (a fold over the c
              "decomposition pieces/separators; differential correspondence model vs names.py")
 RULE = ("corpus (D7 witnesses, the repo's own co-author test inputs); every string of <= k tokens over "
         "{A, and, AND, And, an, d, space, tab, newline, ~, {, }, \\x, \\ (lone), ','} (k=5 quick: exhaustive for that "
-        "alphabet; k=6 thorough); random long author lists (2-40 names, mixed separators, braces, escapes, non-ASCII); "
+        "alphabet; k=6 thorough); every string of <= 6 (thorough 7) tokens over the coarser alphabet {A, ' and ', space, {, }, "
+        "\\{, \\}, '\\ ', \\} (escaped braces inside groups followed by separators); random long author lists (2-40 names, mixed separators, braces, escapes, non-ASCII); "
         "SeparateCoAuthors / MergeCoAuthors on entries with author/editor/translator and other fields, both "
         "allow_inplace_modification settings. Compared: the complete list of pieces (resp. the complete transformed "
         "block). Non-trivial = at least one piece returned.")
@@ -33,6 +34,9 @@ ASSUMPTIONS = []
 PARTIAL = []
 
 ALPHABET = ["A", "and", "AND", "And", "an", "d", " ", "\t", "\n", "~", "{", "}", "\\x", "\\", ","]
+# a second, coarser alphabet whose tokens are whole separators and escaped braces, so that short strings reach
+# "escaped brace inside a group, then a separator" (7+ tokens of the fine alphabet)
+ALPHABET2 = ["A", " and ", " ", "{", "}", "\\{", "\\}", "\\ ", "\\"]
 
 
 def corpus():
@@ -41,6 +45,7 @@ def corpus():
         "A a\\xnd B",                   # D7: 'a\\xnd' was dropped
         "A and \\", "A and\\ B", "A an\\d B", "A and \\{B", "\\ and B", "A\\  and B",
         "X and and B and C",           # K3 (C14) input: three pieces
+        "{Marks \\} and Spencer} and Smith, J.", "{Marks \\{ Co} and Smith, J.", "{A \\} and B} and C", "{\\{} and B",
         "A and }B", "}A and B", "A} and B", "{A and B", "A and B{", "A and {B} and C",
         "and", "and and", "and and and", "A and", "and A", " A and and ", "A and and and B",
         "A  and\tB\nand\r\nC", "A aNd B AnD C", "A an and B", "A a and B", "A an d B", "A and~B", "A~and B",
@@ -95,6 +100,8 @@ def _random_mw(rng):
 def gen(tier, rng):
     k = 5 if tier == "quick" else 6
     for t in C.token_strings(ALPHABET, k):
+        yield {"t": t}
+    for t in C.token_strings(ALPHABET2, 6 if tier == "quick" else 7):
         yield {"t": t}
     # the reference splitter of the Lean statement `exact_rule` itself, against the real function
     # (on inputs without an unmatched closing brace, where the theorem says they agree)
